@@ -1,5 +1,6 @@
 import Driver.Proto
 import PqModel.Rle
+import PqModel.RleDecode
 
 namespace Driver.Ops.C04Rle
 open Driver PqModel.Rle
@@ -56,6 +57,24 @@ def handle (toks : List String) : Option String :=
         | some xs => if xs.all (· < 2 ^ 32) then showBytes (encodeDict xs) else "bad-op"
         | none => "bad-op"
       | _ => "bad-op"
+  | ["rle.godeclevels", w, hex] => some <|
+    match parseNat? w, parseHex? hex with
+    | some w, some bs => showVals (goDecodeLevels w (bytesOf bs))
+    | _, _ => "bad-op"
+  | ["rle.godecint32", w, hex] => some <|
+    match parseNat? w, parseHex? hex with
+    | some w, some bs => showVals (goDecodeInt32 w (bytesOf bs))
+    | _, _ => "bad-op"
+  | ["rle.godecdict", hex] => some <|
+    match parseHex? hex with
+    | some bs => showVals (goDecodeDict (bytesOf bs))
+    | none => "bad-op"
+  | ["rle.gopackbytes", w, hex] => some <|
+    match parseNat? w, parseHex? hex with
+    | some w, some bs =>
+      let bs := bytesOf bs
+      showBytes (.ok (goEncodeBytesBitpack w (groups8 (bs.length / 8) bs)))
+    | _, _ => "bad-op"
   | ["rle.godecbool", hex] => some <|
     match parseHex? hex with
     | some bs => showBytes (goDecodeBoolean (bytesOf bs))
